@@ -42,6 +42,12 @@ type c07Case struct {
 	// Flood > 0: before anything else a subscription is opened whose handler returns a channel of this capacity and
 	// keeps it full for the whole case (an attentive consumer drains it); it is cancelled at the end
 	Flood int `json:"flood,omitempty"`
+	// RevN > 0: additionally a handler on the server subscribes to a stream of RevN elements served by the calling
+	// client (reverse direction), every second element padded to RevPad bytes; the server's request size limit is
+	// RevMaxReq (0 = default 100 MiB), which governs HTTP request bodies, not stream elements
+	RevN      int   `json:"rev_n,omitempty"`
+	RevPad    int   `json:"rev_pad,omitempty"`
+	RevMaxReq int64 `json:"rev_max_req,omitempty"`
 	Rules []*HookRule `json:"rules,omitempty"`
 }
 
@@ -204,7 +210,7 @@ func consumeStreamSkipping(st *anyStream, tok string, n int, slow bool, budget t
 }
 
 func runC07(c c07Case) (*Violation, string) {
-	rig, err := NewRig(RigOpts{})
+	rig, err := NewRig(RigOpts{Reverse: c.RevN > 0, ServerMaxReq: c.RevMaxReq})
 	if err != nil {
 		return nil, "rig"
 	}
@@ -215,6 +221,10 @@ func runC07(c c07Case) (*Violation, string) {
 	}
 	hooks.Reset(c.Rules...)
 	defer hooks.Off()
+	var revCall *Pending
+	if c.RevN > 0 {
+		revCall = rig.Go(cl, "call", rig.Tok("rev"), Plan{RevStream: c.RevN, RevStreamPad: c.RevPad})
+	}
 
 	type sub struct {
 		c07Sub
@@ -351,6 +361,21 @@ func runC07(c c07Case) (*Violation, string) {
 			}
 		}
 	}
+	if revCall != nil {
+		if out := AwaitReturn([]*Pending{revCall}, 8*time.Second); len(out) > 0 {
+			return violf("stream-stalled", "the call whose handler consumes a client-served stream of %d elements did not return within 8s", c.RevN), ""
+		}
+		if revCall.Err != nil {
+			return violf("unary-failed", "the call whose handler consumes a client-served stream failed on a healthy connection: %v", revCall.Err), ""
+		}
+		if want := fmt.Sprintf("stream-ok:%d", c.RevN); revCall.Res.Rev != want {
+			key := "stream-lost-value"
+			if strings.Contains(revCall.Res.Rev, "closed-after") {
+				key = "stream-closed-early"
+			}
+			return violf(key, "client-served stream of %d elements (every second one padded to %d bytes, server request size limit %d): the server-side consumer reports %q", c.RevN, c.RevPad, c.RevMaxReq, revCall.Res.Rev), ""
+		}
+	}
 	if c.Flood > 0 {
 		fcancel()
 		select {
@@ -456,6 +481,13 @@ func c07NT(c c07Case) (bool, []string) {
 		cl = append(cl, "never_pausing_producer")
 		nt = true
 	}
+	if c.RevN > 0 {
+		cl = append(cl, "reverse_direction_stream")
+		nt = true
+		if c.RevMaxReq > 0 && int64(c.RevPad) > c.RevMaxReq {
+			cl = append(cl, "reverse_element_above_request_limit")
+		}
+	}
 	if len(c.Rules) > 0 {
 		cl = append(cl, "with_delays")
 	}
@@ -465,13 +497,13 @@ func c07NT(c c07Case) (bool, []string) {
 	return nt, cl
 }
 
-const c07Rule = "1-5 concurrent subscriptions, lengths from {0,1,2,31..34,100,255..257,1000}, element types {struct with (token,seq), int64, string, struct with optional pointer/map/slice fields, float64 with one NaN}, subscribing methods returning (channel, error) or only a channel, handler channels with 0-300 spare slots, optionally one extra subscription whose producer never pauses on a buffered channel (capacity 1-1024) for the whole case, 0..N values pre-loaded in the handler's channel buffer before it returns, consumers {eager, slow, stalled then resumed, stalled for the whole case}, 0-6 interleaved unary calls, 0-3 delays at chan.register / chan.forward / chan.sink / write.locked / resp.found. Non-trivial = >=2 subscriptions, or a length > 32, or early sends, or a stalled consumer; distinct by descriptor hash"
+const c07Rule = "1-5 concurrent subscriptions, lengths from {0,1,2,31..34,100,255..257,1000}, element types {struct with (token,seq), int64, string, struct with optional pointer/map/slice fields, float64 with one NaN}, subscribing methods returning (channel, error) or only a channel, handler channels with 0-300 spare slots, optionally one extra subscription whose producer never pauses on a buffered channel (capacity 1-1024) for the whole case, optionally a reverse-direction stream (served by the client, consumed by a server-side handler) of 1-300 elements padded up to 70 kB with the server's HTTP request size limit set as low as 1 KiB, 0..N values pre-loaded in the handler's channel buffer before it returns, consumers {eager, slow, stalled then resumed, stalled for the whole case}, 0-6 interleaved unary calls, 0-3 delays at chan.register / chan.forward / chan.sink / write.locked / resp.found. Non-trivial = >=2 subscriptions, or a length > 32, or early sends, or a stalled consumer; distinct by descriptor hash"
 
 func TestC07(t *testing.T) {
 	rec := NewRec("C07", c07Rule)
 	defer rec.Finish(t)
 	rec.EnableJournal()
-	rec.RequireClass("bare_channel_result", "buffered_handler_channel", "never_pausing_producer", "type_rich", "type_nan", "len_gt_8k", "len_gt_32", "len_0", "early_send", "consumer_stalled", "consumer_resume", "consumer_slow", "type_int", "type_str", "with_delays", "with_unary", "nsubs_3")
+	rec.RequireClass("reverse_direction_stream", "reverse_element_above_request_limit", "bare_channel_result", "buffered_handler_channel", "never_pausing_producer", "type_rich", "type_nan", "len_gt_8k", "len_gt_32", "len_0", "early_send", "consumer_stalled", "consumer_resume", "consumer_slow", "type_int", "type_str", "with_delays", "with_unary", "nsubs_3")
 	run := func(ft failer, c c07Case) {
 		nt, cl := c07NT(c)
 		rec.Run(ft, c, nt, cl, func() *Violation {
@@ -507,6 +539,10 @@ func TestC07(t *testing.T) {
 		for _, fc := range []int{1, 8, 256} {
 			run(t, c07Case{Flood: fc, Subs: []c07Sub{{Type: "item", N: 20, Consumer: "eager"}, {Type: "str", N: 100, ChanCap: 4, Consumer: "eager"}, {Type: "item", N: 5, Bare: true, Consumer: "resume"}}, Unary: 3})
 		}
+		// reverse direction: the client serves the stream, a handler on the server consumes it
+		run(t, c07Case{RevN: 40, RevPad: 10, Subs: []c07Sub{{Type: "item", N: 20, Consumer: "eager"}}, Unary: 1})
+		run(t, c07Case{RevN: 9, RevPad: 70000, RevMaxReq: 32 << 10, Subs: []c07Sub{{Type: "int", N: 50, Consumer: "slow"}}, Unary: 2})
+		run(t, c07Case{RevN: 300, RevPad: 5000, RevMaxReq: 4096, Subs: []c07Sub{{Type: "str", N: 10, Consumer: "stalled"}}})
 		for _, cons := range []string{"stalled", "resume", "slow"} {
 			run(t, c07Case{Subs: []c07Sub{{Type: "item", N: 300, Consumer: cons}, {Type: "int", N: 40, Early: 2, Consumer: "eager"}, {Type: "str", N: 33, Consumer: "eager"}}, Unary: 4})
 		}
@@ -554,6 +590,14 @@ func TestC07(t *testing.T) {
 				if c.Subs[i].N > 300 {
 					c.Subs[i].N = 300
 				}
+			}
+		}
+		if rapid.IntRange(0, 5).Draw(rt, "revkind") == 0 {
+			c.RevN = rapid.SampledFrom([]int{1, 2, 33, 257}).Draw(rt, "revn")
+			c.RevPad = rapid.SampledFrom([]int{0, 100, 5000, 70000}).Draw(rt, "revpad")
+			c.RevMaxReq = rapid.SampledFrom([]int64{0, 1024, 4096, 64 << 10}).Draw(rt, "revmax")
+			if c.RevPad > 5000 && c.RevN > 33 {
+				c.RevN = 33
 			}
 		}
 		c.Unary = rapid.IntRange(0, 6).Draw(rt, "unary")
